@@ -12,17 +12,27 @@ from .core import U, AnalysisError, parent, enclosing_stmt
 from .facts import FactMap
 
 
-def const_eval(P, module, node):
-    """integer value of an expression built from literals and module constants, else None."""
-    if node is None:
+def const_eval(P, module, node, func=None, _depth=0):
+    """integer value of an expression built from literals, module constants and (when ``func`` is given) locals of
+    that function that are assigned exactly once from such an expression; else None."""
+    if node is None or _depth > 6:
         return None
     if isinstance(node, ast.Constant) and isinstance(node.value, int) and not isinstance(node.value, bool):
         return node.value
     if isinstance(node, (ast.Name, ast.Attribute)):
         v = P.const_value(module, U(node))
-        return v if isinstance(v, int) and not isinstance(v, bool) else None
+        if isinstance(v, int) and not isinstance(v, bool):
+            return v
+        if func is not None and isinstance(node, ast.Name):
+            ds = [n for n in ast.walk(func.node) if isinstance(n, ast.Assign) and len(n.targets) == 1 and
+                  isinstance(n.targets[0], ast.Name) and n.targets[0].id == node.id]
+            augs = [n for n in ast.walk(func.node) if isinstance(n, ast.AugAssign) and U(n.target) == node.id]
+            loops = [n for n in ast.walk(func.node) if isinstance(n, (ast.For, ast.comprehension)) and node.id in U(n.target)]
+            if len(ds) == 1 and not augs and not loops:
+                return const_eval(P, module, ds[0].value, func, _depth + 1)
+        return None
     if isinstance(node, ast.BinOp):
-        a, b = const_eval(P, module, node.left), const_eval(P, module, node.right)
+        a, b = const_eval(P, module, node.left, func, _depth + 1), const_eval(P, module, node.right, func, _depth + 1)
         if a is None or b is None:
             return None
         if isinstance(node.op, ast.Add):
@@ -179,7 +189,7 @@ def extract(P, G):
             if isinstance(n, ast.Assign) and len(n.targets) == 1 and isinstance(n.targets[0], ast.Subscript):
                 t = n.targets[0]
                 if isinstance(t.value, ast.Name) and t.value.id in bufs and isinstance(t.slice, ast.Slice):
-                    lo, hi = const_eval(P, f.module, t.slice.lower), const_eval(P, f.module, t.slice.upper)
+                    lo, hi = const_eval(P, f.module, t.slice.lower, f), const_eval(P, f.module, t.slice.upper, f)
                     if lo is None or hi is None:
                         # variable ranges (the header-word table rows) are handled by their own rule
                         continue
@@ -188,7 +198,7 @@ def extract(P, G):
         # seek + write patches
         for n in ast.walk(f.node):
             if isinstance(n, ast.Call) and isinstance(n.func, ast.Attribute) and n.func.attr == 'seek' and n.args:
-                off = const_eval(P, f.module, n.args[0])
+                off = const_eval(P, f.module, n.args[0], f)
                 st = enclosing_stmt(n)
                 if off is None or st is None:
                     continue
@@ -209,7 +219,7 @@ def extract(P, G):
         for n in ast.walk(f.node):
             if isinstance(n, ast.Subscript) and isinstance(n.ctx, ast.Load) and isinstance(n.slice, ast.Slice) and \
                     any(U(n.value).endswith(mk) for mk in HEADER_BUF_MARKERS):
-                lo, hi = const_eval(P, f.module, n.slice.lower), const_eval(P, f.module, n.slice.upper)
+                lo, hi = const_eval(P, f.module, n.slice.lower, f), const_eval(P, f.module, n.slice.upper, f)
                 if lo is None or hi is None:
                     continue
                 p = parent(n)
